@@ -22,9 +22,36 @@ def cases_fn(nonclone=True):
         cases = []
         k = 0
         forced = ["map", "map", "set", "set", "vec", "option"]
-        for b in range(nbase + len(forced)):
+        # every leaf form that applies to a non-Copy payload (a String), in every position: the generated patterns below put a leaf of
+        # a given form directly into a given position only by chance (a closure directly on a wildcard-struct field: seed C09-11)
+        from checks import c11
+        atoms = [(t, form, shape) for (t, form, shape) in c11.ATOM_FORMS if t == ("string",)]
+        for b in range(nbase + len(forced) + len(atoms)):
             g = tgen.Gen(rng)
             # non-Copy payloads: strings, vectors, structs and enums holding them; maps and sets (every std map is non-Copy)
+            if b >= nbase + len(forced):
+                t, form, shape = atoms[b - nbase - len(forced)]
+                v0 = g.gen_val(t)
+                pg = tgen.PatGen(g, rng, root_is_ref=True)
+                pg.force, pg.force_shape = form, shape
+                pat = pg.pat(v0, t, depth=1)
+                v = v0
+                extra = "(v %s (int 0)) (v %s (str %s)) %s" % (tgen.hexs("0"), tgen.hexs('"k"'), tgen.hexs("k"), P.METHOD_MEANINGS)
+                for pos in P.POSITIONS:
+                    c = t3.Case()
+                    c.id = k
+                    k += 1
+                    c.base, c.position, c.gen, c.ty, c.value = b, pos, g, t, v
+                    c.inner_pattern = pat
+                    c.form = tgen.top_form(pat)
+                    c.forms = dict(pg.forms_used)
+                    c.meanings = pg.meanings_sexp()[:-1] + " " + extra + ")"
+                    wd, wt, wv, wp, ws = P.wrap(pos, g, t, v, pat)
+                    t3.finish_case(c, g.decls() + "\n" + wd, wt, wv, ws, wp)
+                    c.setup = 'let before = format!("{:?}", v);'
+                    c.post = 'let after = format!("{:?}", v); println!("X %d same={}", before == after);' % c.id
+                    cases.append(c)
+                continue
             if b < len(forced):
                 t = None
                 for _ in range(30):
